@@ -15,6 +15,19 @@ git apply $SRC/patch.diff || { echo "patch does not apply"; git -C /repo worktre
 timeout 600 /venv/bin/python -W ignore $SRC/demo.py > $OUT/demo_changed.log 2>&1; B=$?
 timeout 3000 /venv/bin/python -m pytest -q -p no:cacheprovider --timeout=900 --continue-on-collection-errors --junitxml=$OUT/suite.xml > $OUT/suite.log 2>&1
 python3 /verif/harness/suite_cmp.py $OUT/suite.xml > $OUT/suite_cmp.txt 2>&1; C=$?
+if [ $C -ne 0 ]; then
+  # stable tests that did not pass: re-run each alone (up to 3 times); load-dependent Z3 timeouts make a few solver tests flaky
+  C=0
+  for t in $(grep "NOT PASSING" $OUT/suite_cmp.txt | awk '{print $3}'); do
+    f=$(echo $t | sed 's/^tests\.\([a-z_0-9]*\)\.\(.*\)$/tests\/\1.py::\2/')
+    ok=1
+    for k in 1 2 3; do
+      if timeout 1500 /venv/bin/python -m pytest -q -p no:cacheprovider --timeout=900 "$f" > /dev/null 2>&1; then ok=0; break; fi
+    done
+    echo "  rerun-alone $f -> $([ $ok -eq 0 ] && echo passes || echo STILL-FAILS)" >> $OUT/suite_cmp.txt
+    [ $ok -ne 0 ] && C=1
+  done
+fi
 cp $SRC/patch.diff $SRC/demo.py $OUT/
 [ -f $SRC/meta.json ] && cp $SRC/meta.json $OUT/meta_agent.json
 # run our check against the changed tree (evidence written by this run is NOT kept: it is re-generated on /repo later)
